@@ -57,6 +57,21 @@ def gen_invocation(rng, i):
             c, n = runs
             lines.append(c * rng.choice([n, 2 * n - 1, 2 * n + 3]))
             lines.append(rng.choice(alpha + ["q"]) + c * (n + rng.randint(0, 5)) + "q" + c * 3)
+        if rng.random() < 0.04:
+            # an input several times the reader's 8 KiB buffer, made of short lines a third of which are empty:
+            # block boundaries of a buffered reader then fall after empty lines, inside lines and between lines
+            total = sum(len(l.encode()) + 1 for l in lines)
+            want = rng.choice([8192, 16384, 24576]) + rng.randint(1, 600)
+            while total < want:
+                r = rng.random()
+                if r < 0.34:
+                    l = ""
+                elif r < 0.5 and pats:
+                    l = rng.choice(pats) + rng.choice(alpha)
+                else:
+                    l = "".join(rng.choice(alpha + ["q"]) for _ in range(rng.randint(1, 9)))
+                lines.append(l)
+                total += len(l.encode()) + 1
         if rng.random() < 0.03 and pats:
             # a line longer than the reader's 8 KiB buffer, with a pattern straddling the boundary
             filler = "q"  # occurs in no pattern: the occurrences are those of p only
